@@ -84,6 +84,13 @@ class Unit:
         return "()"
 
 
+class Panic:
+    """returned by a call model: the modelled call panics on this path (index out of bounds, unwrap of None ...)"""
+
+    def __init__(self, msg):
+        self.msg = msg
+
+
 class Ref:
     __slots__ = ("cell", "mut")
 
@@ -326,6 +333,7 @@ class Path:
         self.panics = None
         self.asserts = []  # (cond_term, msg) of MIR assert terminators passed (overflow / bounds checks)
         self.heap = {}     # name of an opaque pointer-like aggregate -> Cell of its abstract pointee (shared by copies)
+        self.side = []     # (pc prefix, cond, msg): a modelled call panics here unless cond; cond was added to pc
 
 
 _FRAME_UID = [0]
@@ -376,6 +384,8 @@ class Executor:
         self.done = []
         self._pure_memo = {}
         self.cur_path = None
+        self.prune = None              # optional callable(list of pc terms) -> bool: online feasibility test of a branch
+        self.pruned = []               # path conditions of the branches dropped by it (cross-checked later)
 
     # ---- places ---------------------------------------------------------------------------------------------------
     def local_cell(self, frame, name):
@@ -926,6 +936,14 @@ class Executor:
                 succ.append((c, other))
             out = []
             succ = [(c, bb) for (c, bb) in succ if not contradicts(path.pc, fold(c))]
+            if self.prune is not None and len(succ) > 0:
+                keep = []
+                for (c, bb) in succ:
+                    if self.prune(path.pc + [fold(c)]):
+                        keep.append((c, bb))
+                    else:
+                        self.pruned.append(path.pc + [fold(c)])
+                succ = keep
             for i, (c, bb) in enumerate(succ):
                 s2 = st if i == len(succ) - 1 else self.fork(st)
                 s2.path.pc.append(fold(c))
@@ -941,10 +959,14 @@ class Executor:
             msg = m.group(3)
             cv = const_of(ok)
             if cv is not True:
-                s2 = self.fork(st)
-                s2.path.pc.append(fold(f"(not {ok})"))
-                s2.path.panics = f"{msg} in {frame.func.name.split('::')[-1]}"
-                results.append((s2.path, None))
+                bad_pc = path.pc + [fold(f"(not {ok})")]
+                if self.prune is not None and not self.prune(bad_pc):
+                    self.pruned.append(bad_pc)
+                else:
+                    s2 = self.fork(st)
+                    s2.path.pc.append(fold(f"(not {ok})"))
+                    s2.path.panics = f"{msg} in {frame.func.name.split('::')[-1]}"
+                    results.append((s2.path, None))
                 path.pc.append(ok)
             st.bb = m.group(4)
             return [st]
@@ -967,6 +989,10 @@ class Executor:
             for rx, mdl in self.models.items():
                 if re.search(rx, callee):
                     r = mdl(self, path, frame, callee, args, dest_ty)
+                    if isinstance(r, Panic):
+                        path.panics = f"{r.msg} in {frame.func.name.split('::')[-1]} (call to {short(callee)})"
+                        results.append((path, None))
+                        return []
                     if r is not NotImplemented:
                         self.place_cell(frame, dast, for_write=True).val = r
                         st.bb = nb
